@@ -13,7 +13,7 @@ import (
 
 var c02Profile = &kvh.GenProfile{
 	Weights: map[string]int{
-		"put": 38, "del": 14, "get": 4, "batch": 14, "sync": 2, "merge": 6,
+		"put": 38, "del": 14, "get": 4, "batch": 14, "sync": 2, "merge": 6, "wipe": 2,
 		"reopen": 14, "listkeys": 2, "fold": 2, "stat": 1,
 	},
 	MaxBatchOps: 8,
